@@ -46,7 +46,11 @@ class PydanticValidator(base.BaseValidator):
         """
 
         signature = self.signature(method, tuple(exclude))
-        schema = self.build_validation_schema(signature)
+        try:
+            schema = self.build_validation_schema(signature)
+        except TypeError:
+            # the signature is not hashable (a parameter has an unhashable default value) so it can't be cached
+            schema = self.build_validation_schema.__wrapped__(self, signature)
 
         params_model = pydantic.create_model(method.__name__, **schema, __config__=self._model_config)
 
